@@ -79,6 +79,7 @@ theorem candidates_sound (cfg : Cfg) (ms : List Meth) (hid : (ms.map (·.id)).No
     cases Option.some.inj h
     obtain ⟨id, hidm, rfl⟩ := List.mem_map.mp hc
     rw [(List.mergeSort_perm _ _).mem_iff] at hidm
+    simp only [List.isEmpty_eq_false_iff.mpr hne, Bool.false_eq_true, if_false] at hidm
     unfold slotResults at hrs
     obtain ⟨hall, hnn⟩ := mapM_option_mem _ k rs hrs
     have hin := (mem_candIds rs (hnn hne) id).mp hidm
@@ -110,6 +111,20 @@ theorem candidates_sound (cfg : Cfg) (ms : List Meth) (hid : (ms.map (·.id)).No
       have : m' = m := eq_of_nodup_map (·.id) ms hid m' hm' m hm (hmid'.trans hmid.symm)
       subst this
       exact ht
+
+/-- the same without the hypothesis `k ≠ []`: the candidates of the call without arguments are the methods that
+    require no argument (`candidates_ok_nil`) -/
+theorem candidates_sound_all (cfg : Cfg) (ms : List Meth) (hid : (ms.map (·.id)).Nodup) (k : Key)
+    (cs : List Cand) (h : candidates cfg ms k = some cs) (c : Cand) (hc : c ∈ cs) :
+    ∃ m ∈ ms, m.id = c.id ∧ applicableTo cfg.H k m = true := by
+  by_cases hne : k = []
+  · subst hne
+    obtain ⟨cs', hcs', ok⟩ := candidates_ok_nil cfg ms hid
+    rw [h] at hcs'
+    cases Option.some.inj hcs'
+    obtain ⟨m, hm, hmid, happ, _⟩ := ok.sound c hc
+    exact ⟨m, hm, hmid, happ⟩
+  · exact candidates_sound cfg ms hid k hne cs h c hc
 
 /-! ## (d) the entries built by the bottom-up half of `resolve` -/
 
@@ -277,8 +292,8 @@ end
 
 /-! ## the chain -/
 
-theorem lookup_applicable (cfg : Cfg) (ms : List Meth) (hid : (ms.map (·.id)).Nodup) (c : Option Code) (k : Key)
-    (hne : k ≠ []) (e : Entry) (h : pureLookup (plan cfg ms) (c, k) = .ok e) :
+theorem lookup_applicable_all (cfg : Cfg) (ms : List Meth) (hid : (ms.map (·.id)).Nodup) (c : Option Code) (k : Key)
+    (e : Entry) (h : pureLookup (plan cfg ms) (c, k) = .ok e) :
     ∀ id ∈ e.handlers, ∃ m ∈ ms, m.id = id ∧ applicableTo cfg.H k m = true := by
   obtain ⟨r, hr, hf⟩ := pureLookup_ok_rank (plan cfg ms) c k e h
   unfold plan at hr
@@ -292,6 +307,11 @@ theorem lookup_applicable (cfg : Cfg) (ms : List Meth) (hid : (ms.map (·.id)).N
     have hnd := candidates_nodup cfg ms hid k cs hc
     have hs := ((pull_spec _ _ [] (sortCands_ids_nodup cs hnd)).2 cand hcand).1
     have hcs : cand ∈ cs := (List.mergeSort_perm _ _).mem_iff.mp hs
-    exact candidates_sound cfg ms hid k hne cs hc cand hcs
+    exact candidates_sound_all cfg ms hid k cs hc cand hcs
+
+theorem lookup_applicable (cfg : Cfg) (ms : List Meth) (hid : (ms.map (·.id)).Nodup) (c : Option Code) (k : Key)
+    (_hne : k ≠ []) (e : Entry) (h : pureLookup (plan cfg ms) (c, k) = .ok e) :
+    ∀ id ∈ e.handlers, ∃ m ∈ ms, m.id = id ∧ applicableTo cfg.H k m = true :=
+  lookup_applicable_all cfg ms hid c k e h
 
 end Ovld
